@@ -525,6 +525,36 @@ func dangle(rt_ *rapid.T, d *m.Design) string {
 				ut.Views[len(ut.Views)-1] = &v
 			}})
 		}
+		if ut.Result && ut.CollectionOf == "" && len(ut.Views) > 0 && ut.Attr != nil && ut.Attr.Type.Kind == m.Object {
+			// a new attribute that is an array of result types (inline, or through a
+			// named array type), listed by the views with a view its elements do not define
+			for _, named := range []bool{false, true} {
+				named := named
+				what := "inline array"
+				if named {
+					what = "named array type"
+				}
+				sites = append(sites, site{"view attribute (" + what + " of result types) rendered with a view the element type does not define in " + ut.Name, func() {
+					elem := m.UserRef(ut.Name)
+					arr := &m.Attr{Type: &m.Type{Kind: m.Array, Elem: elem}}
+					a := arr
+					if named {
+						d.Types = append(d.Types, &m.UserType{Name: "DanglingList", Var: "vdangling", Attr: arr})
+						a = m.UserRef("DanglingList")
+					}
+					obj := *ut.Attr.Type
+					obj.Fields = append(append([]*m.Field{}, obj.Fields...), &m.Field{Name: "dangling_items", Attr: a, Tag: 9000})
+					na := *ut.Attr
+					na.Type = &obj
+					ut.Attr = &na
+					for i, v := range ut.Views {
+						nv := *v
+						nv.Fields = append(append([]m.ViewField{}, v.Fields...), m.ViewField{Name: "dangling_items", View: "no_such_view"})
+						ut.Views[i] = &nv
+					}
+				}})
+			}
+		}
 		if ut.Attr != nil && ut.Attr.Type.Kind == m.Object && ut.CollectionOf == "" {
 			for _, f := range ut.Attr.Type.Fields {
 				f := f
